@@ -6,14 +6,15 @@ import concurrent.futures as cf
 from lib import common as C
 from checks import hsim
 
-MODEL = {"mutex": "rwspec", "rw": "rwspec", "qrw": "rwspec", "sem": "semlog", "semd": "semlog", "semooo": "semlog", "semtight": "semlog", "cond": "ringlog"}
+MODEL = {"mutex": "rwspec", "rw": "rwspec", "qrw": "rwspec", "sem": "semlog", "semd": "semlog", "semooo": "semlog", "semtight": "semlog", "condrace": "semlog", "cond": "ringlog"}
 
 
 def gen(r, what, big):
     nv = r.choice([2, 3, 4])
     if what in ("mutex", "rw", "qrw") and r.random() < 0.5:
         # one hand-over per round, aimed at the window between a locker's last failed attempt and its going to sleep
-        return ["handoff %s %d %d" % (r.choice(["mutex", "mutex0"]) if what == "mutex" else what, r.choice([20000, 40000] if not big else [100000, 200000]), r.choice([0, 1, 1]))]
+        return ["handoff %s %d %d %d" % (r.choice(["mutex", "mutex0"]) if what == "mutex" else what, r.choice([20000, 40000] if not big else [100000, 200000]),
+                                         r.choice([0, 1, 1]), r.choice([0, 0, 5, 20]))]
     if what in ("mutex", "rw", "qrw"):
         return ["lock %s %d %d %d %s %s %d" % (what, nv, r.choice([1, 2, 3]), r.choice([100, 300] if not big else [300, 1000]), r.choice("nyys"),
                                                 r.choice(["inf", "inf", "100", "1000"]), r.choice([10, 30, 100]))]
@@ -27,6 +28,8 @@ def gen(r, what, big):
                                              r.choice([200, 600] if not big else [600, 3000]) * (4 if tmo else 1), r.choice([0, 1, 1] if tmo else [0, 0, 1]), tmo)]
     if what == "semd":
         return ["semd %d %d %d %d" % (nv, r.choice([1, 2, 4]), r.choice([300, 1000] if not big else [1000, 5000]), r.choice([0, 1]))]
+    if what == "cond" and r.random() < 0.5:
+        return ["condrace %d %d" % (r.choice([20000, 40000] if not big else [100000, 300000]), r.choice([5, 30, 100]))]
     return ["cond %d %d %d %d %d" % (nv, r.choice([1, 2, 3]), r.choice([1, 2, 3]), r.choice([500, 2000] if not big else [2000, 10000]), r.choice([1, 1, 2, 8]))]
 
 
